@@ -42,25 +42,37 @@ type v6cfg struct {
 	//          second IAID of the same client-id, and with TWO IA options of a kind in one message
 	//  "full": everything (thorough tier)
 	alpha string
+	// prefix pool geometry (legacy pool): "" / 0 = 2001:db8:100::/62 delegating /64
+	pfxPool string
+	deleg   int
 }
 
 func v6configs(thorough bool) []v6cfg {
 	if thorough {
 		return []v6cfg{
-			{"legacy na+pd k3", 3, true, true, false, 6, 2, 3 * time.Minute, "full"},
-			{"legacy na-only k3", 3, true, false, false, 6, 0, 150 * time.Second, "full"},
-			{"legacy pd-only k3", 3, false, true, false, 6, 0, 150 * time.Second, "full"},
-			{"integrated na+pd k3", 3, true, true, true, 6, 2, 2 * time.Minute, "full"},
-			{"legacy na+pd k2 iaid", 2, true, true, false, 7, 0, 2 * time.Minute, "iaid"},
+			{"legacy na+pd k3", 3, true, true, false, 6, 2, 3 * time.Minute, "full", "", 0},
+			{"legacy na-only k3", 3, true, false, false, 6, 0, 150 * time.Second, "full", "", 0},
+			{"legacy pd-only k3", 3, false, true, false, 6, 0, 150 * time.Second, "full", "", 0},
+			{"integrated na+pd k3", 3, true, true, true, 6, 2, 2 * time.Minute, "full", "", 0},
+			{"legacy na+pd k2 iaid", 2, true, true, false, 7, 0, 2 * time.Minute, "iaid", "", 0},
+			// prefix-pool geometries whose delegation index lies on both sides of / beyond bit 64
+			{"legacy pd-only k2 /63->/65", 2, false, true, false, 5, 0, time.Minute, "base", "2001:db8:200::/63", 65},
+			{"legacy pd-only k2 /62->/66", 2, false, true, false, 4, 0, time.Minute, "base", "2001:db8:200::/62", 66},
+			{"legacy pd-only k2 /64->/66", 2, false, true, false, 4, 0, time.Minute, "base", "2001:db8:200::/64", 66},
+			{"legacy pd-only k2 /60->/64", 2, false, true, false, 3, 0, time.Minute, "base", "2001:db8:200::/60", 64},
+			{"legacy pd-only k2 /64->/72", 2, false, true, false, 2, 0, time.Minute, "base", "2001:db8:200::/64", 72},
 		}
 	}
 	return []v6cfg{
-		{"legacy na+pd k2", 2, true, true, false, 5, 2, 5 * time.Minute, "base"},
-		{"legacy na+pd k2 iaid", 2, true, true, false, 6, 2, 3 * time.Minute, "iaid"},
-		{"legacy pd-only k2", 2, false, true, false, 4, 0, 2 * time.Minute, "base"},
-		{"legacy pd-only k2 iaid", 2, false, true, false, 4, 0, 2 * time.Minute, "iaid"},
-		{"integrated na+pd k2", 2, true, true, true, 4, 2, 2 * time.Minute, "base"},
-		{"integrated na+pd k2 iaid", 2, true, true, true, 4, 0, 2 * time.Minute, "iaid"},
+		{"legacy na+pd k2", 2, true, true, false, 5, 2, 5 * time.Minute, "base", "", 0},
+		{"legacy na+pd k2 iaid", 2, true, true, false, 6, 2, 3 * time.Minute, "iaid", "", 0},
+		{"legacy pd-only k2", 2, false, true, false, 4, 0, 2 * time.Minute, "base", "", 0},
+		{"legacy pd-only k2 iaid", 2, false, true, false, 4, 0, 2 * time.Minute, "iaid", "", 0},
+		{"integrated na+pd k2", 2, true, true, true, 4, 2, 2 * time.Minute, "base", "", 0},
+		{"integrated na+pd k2 iaid", 2, true, true, true, 4, 0, 2 * time.Minute, "iaid", "", 0},
+		// prefix-pool geometry with the delegation index straddling bit 64 (and one fully beyond it)
+		{"legacy pd-only k2 /63->/65", 2, false, true, false, 3, 0, time.Minute, "base", "2001:db8:200::/63", 65},
+		{"legacy pd-only k2 /64->/66", 2, false, true, false, 2, 0, time.Minute, "base", "2001:db8:200::/64", 66},
 	}
 }
 
@@ -117,14 +129,39 @@ func newV6sys(c v6cfg) explore.System {
 		s.usableA = []string{"2001:db8::1", "2001:db8::2", "2001:db8::3"}
 	}
 	if c.pd {
-		cfg.PrefixPool = v6PfxPool
-		s.usableP = []string{"2001:db8:100::/64", "2001:db8:100:1::/64", "2001:db8:100:2::/64", "2001:db8:100:3::/64"}
+		pool, deleg := v6PfxPool, 64
+		if c.pfxPool != "" {
+			pool, deleg = c.pfxPool, c.deleg
+		}
+		cfg.PrefixPool, cfg.DelegationLength = pool, uint8(deleg)
+		s.usableP = subPrefixes(pool, deleg)
 	}
 	s.d = dhcpdrv.NewV6(cfg)
 	for i := 1; i <= c.clients; i++ {
 		s.addClient(fmt.Sprintf("d%d", i), []byte{0, 3, 0, 1, 2, 0, 0, 0, 0, byte(i)})
 	}
 	return s
+}
+
+// subPrefixes lists every /deleg prefix that tiles the pool (what a correct pool can hand out).
+func subPrefixes(pool string, deleg int) []string {
+	_, n, err := net.ParseCIDR(pool)
+	if err != nil {
+		panic(err)
+	}
+	ones, _ := n.Mask.Size()
+	var out []string
+	for i := 0; i < 1<<(deleg-ones); i++ {
+		ip := append(net.IP(nil), n.IP.To16()...)
+		for b := 0; b < deleg-ones; b++ { // bit b of the index sits at address bit deleg-1-b
+			if i&(1<<b) != 0 {
+				pos := deleg - 1 - b
+				ip[pos/8] |= 1 << (7 - pos%8)
+			}
+		}
+		out = append(out, (&net.IPNet{IP: ip, Mask: net.CIDRMask(deleg, 128)}).String())
+	}
+	return out
 }
 
 func (s *v6sys) addClient(n string, duid []byte) {
